@@ -29,7 +29,10 @@ class ModelFieldsPercentMatch(ModelCmp):
         self.percent_fields = percent_fields
 
     def cmp(self, fields_a: set, fields_b: set) -> bool:
-        return len(fields_a & fields_b) / len(fields_a | fields_b) >= self.percent_fields
+        union = fields_a | fields_b
+        if not union:
+            return True
+        return len(fields_a & fields_b) / len(union) >= self.percent_fields
 
 
 class ModelFieldsNumberMatch(ModelCmp):
